@@ -168,3 +168,9 @@ def check(run):
     run.floor("R1-evaluation", 14)
     run.floor("R2-group-roles", 20)
     run.floor("R4-span-labels", 14)
+    # the hits of these decoders are shifted and re-parented in place by scan_node: every call must build fresh nodes
+    roots = [prog.fn(q) for q in ("decoders.concat.find_concat", "decoders.reverse.find_reverse", "decoders.vba.find_strreverse", "decoders.replace.find_replace",
+                                  "decoders.replace.find_powershell_replace", "decoders.replace.find_vba_replace", "decoders.replace.find_js_regex_replace")]
+    from . import common
+    common.check_not_memoised(run, "R5-fresh-hits", roots, "every call of the decoder (and of its helpers) builds its nodes afresh")
+    run.floor("R5-fresh-hits", 7)
